@@ -38,3 +38,128 @@ def c12(prop, tier, seed, core):
 
 
 HANDLERS["C12"] = c12
+
+
+HOSTILE = ["pre-reporter", "deep-scopes", "deep-scopes-cancelable", "wide-scope", "full-ring", "full-ring-cancelable",
+           "tls-A-0", "tls-B-0", "tls-C-0", "tls-R-0", "tls-A-1", "tls-B-1", "tls-C-1", "tls-R-1", "tls-A-2", "tls-B-2", "tls-C-2",
+           "tls-A-3", "tls-B-3", "tls-C-3", "tls-R-3", "tls-A-0-noreporter", "tls-C-0-noreporter", "tls-R-0-noreporter",
+           "tls-A-0-cancelable", "tls-C-0-cancelable", "tls-R-0-cancelable"]
+
+
+def _hostile_sig(name):
+    """signature of an abort in a hostile scenario"""
+    parts = name.split("-")
+    if parts[0] == "tls" and parts[1] in ("C", "R") and parts[2] in ("1", "2"):
+        # a *::random() constructor inside a TLS destructor that runs after rand's generator is gone
+        return "random-ctor-in-tls-dtor"
+    return "abort-in-" + name
+
+
+def run_hostile(core, prop, work, names, release=False):
+    import json, subprocess, time
+    out = []
+    procs = []
+    for nme in names:
+        o = os.path.join(work, "hostile-%s%s.json" % (nme, "-rel" if release else ""))
+        if os.path.exists(o):
+            os.unlink(o)
+        log = open(o + ".log", "w")
+        p = subprocess.Popen([core.binpath("hostile", release), "--scenario", nme, "--out", o], stdout=log, stderr=subprocess.STDOUT, env=core.ENV)
+        procs.append((nme, p, o, time.time(), log))
+    for nme, p, o, t0, log in procs:
+        try:
+            rc = p.wait(timeout=max(1, 90 - (time.time() - t0)))
+        except subprocess.TimeoutExpired:
+            p.kill()
+            p.wait()
+            rc = "hang"
+        log.close()
+        doc = None
+        if os.path.exists(o):
+            try:
+                doc = json.load(open(o))
+            except Exception:
+                doc = None
+        out.append((nme + ("/release" if release else ""), rc, doc, o + ".log"))
+    return out
+
+
+def c07(prop, tier, seed, core):
+    import json
+    work = _work(core, prop)
+    known = core.known_for(prop)
+    known_sigs = [e["signature"] for e in known]
+    mult_p, mult_t = (1, 1) if tier == "quick" else (10, 8)
+    plan = [("placed", "default", 3), ("placed", "cancelable", 2), ("stepped", "default", 3), ("stepped", "cancelable", 2)]
+    jobs = []
+    n = 0
+    for mode, config, shards in plan:
+        for s in range(shards):
+            n += 1
+            out = os.path.join(work, "shard-%02d.json" % n)
+            jobs.append(("%s/%s#%d" % (mode, config, s), [core.binpath("progsim"), "--prop", prop, "--mode", mode, "--config", config,
+                         "--seed", str(_seed(seed, n)), "--programs", str(1200 * mult_p), "--time-limit", str(14 * mult_t), "--out", out,
+                         "--replay-dir", core.REPLAYS, "--known", ",".join(known_sigs)], out))
+    res = core.run_shards(prop, jobs, 14 * mult_t * 3 + 120)
+    # a shard that died (abort, signal) is a violation of C07 itself, not an inconclusive run
+    fixed = []
+    extra_viol = []
+    for label, rc, doc, tail in res:
+        if doc is None and isinstance(rc, int) and rc != 0:
+            os.makedirs(core.REPLAYS, exist_ok=True)
+            rp = os.path.join(core.REPLAYS, "C07-shard-died-%s.log" % label.replace("/", "_").replace("#", "_"))
+            open(rp, "w").write(tail)
+            extra_viol.append({"category": "Abort", "signature": "process-died", "detail": "progsim shard %s died with status %s: %s" % (label, rc, tail[-300:].replace("\n", " | ")), "replay": rp})
+            fixed.append((label, rc, {"executions": 0, "programs": 0}, tail))
+        else:
+            fixed.append((label, rc, doc, tail))
+    m = core.merge(prop, tier, seed, fixed, known, engine="progsim")
+    m["violations"].extend(extra_viol)
+    # hostile scenarios, one process each
+    hres = run_hostile(core, prop, work, HOSTILE, release=False)
+    if tier == "thorough":
+        ok, err = core.build(release=True)
+        if ok:
+            hres += run_hostile(core, prop, work, HOSTILE, release=True)
+        else:
+            m["inconclusive"].append("release build failed: " + err[-200:])
+    scen = []
+    calls = 0
+    for nme, rc, doc, logp in hres:
+        entry = {"scenario": nme, "status": rc if not isinstance(rc, int) or rc != 0 else "ok"}
+        if doc and doc.get("ok"):
+            calls += doc.get("calls", 0)
+            entry["calls"] = doc.get("calls")
+            entry.update(doc.get("extra") or {})
+            m["evaluations"] += 1
+            m["distinct"] += 1
+        else:
+            sig = _hostile_sig(nme.split("/")[0])
+            if doc and doc.get("ok") is False:
+                sig = "panic-in-" + nme.split("/")[0]
+                detail = "scenario %s: a tracing call panicked: %s" % (nme, doc.get("panic"))
+            elif rc == "hang":
+                sig = "hang-in-" + nme.split("/")[0]
+                detail = "scenario %s did not finish within the watchdog (a call did not return)" % nme
+            else:
+                tail = open(logp).read()[-400:].replace("\n", " | ")
+                detail = "scenario %s: process died with status %s: %s" % (nme, rc, tail)
+            entry["signature"] = sig
+            m["evaluations"] += 1
+            if sig in known_sigs:
+                m["known_hits"][sig] = m["known_hits"].get(sig, 0) + 1
+            else:
+                m["violations"].append({"category": "Hostile", "signature": sig, "detail": detail, "replay": logp})
+        scen.append(entry)
+    m["cov"]["hostile_scenarios"] = scen
+    m["cov"]["hostile_api_calls_returned"] = calls
+    m["cov"]["known_findings_witnessed"] = m["known_hits"]
+    m["rule"] = (core.RULES["progsim"] + " C07 adds: programs from a hostile profile (40% no-op parents, empty parent sets, 25% unsampled roots, property "
+                 "closures that themselves run API operations, all adapter kinds, thread exits) where any panic or a logical thread that does not "
+                 "come back is the violation; plus one-process-per-scenario runs: every public call before set_reporter, 4200 nested scopes, 10400 "
+                 "local spans in one scope, 25000 commands into a ring nobody drains (per-call latency recorded), and the full call list issued "
+                 "from thread-local destructors in every registration order of the user's, fastrace's and rand's thread-locals.")
+    return m
+
+
+HANDLERS["C07"] = c07
